@@ -13,6 +13,7 @@ import (
 	"fmt"
 	"io"
 	"os"
+	"runtime"
 	"strings"
 	"sync"
 	"sync/atomic"
@@ -23,9 +24,9 @@ import (
 func TestVerifC04(t *testing.T) {
 	vfMain(t, vfCheck{
 		ID: "C04", Level: "fault_enumeration",
-		Rule:        "12 scenarios (N concurrent single calls; one read call served by several short replies; concurrent and sequential ReadAt / WriteTo / WriteAt / ReadFrom mid-transfer; callers that keep issuing requests; raw dispatchRequest ledger) x fault kinds {server->client stream EOF at byte n, error at byte n (a transport error, and io.ErrClosedPipe), k-th client->server Write call fails with the connection reset, k-th Write fails one-sided, also on a transport whose Close leaves the reply stream open}; quick: every reply-frame boundary +-1 and a seeded 12% of the interior offsets, thorough: every offset 0..T (streams longer than 2500 bytes: every offset of the first 1200 bytes and a seeded stride after) and every write index. A class is (scenario, fault kind, position bucket); non-trivial when calls were in flight at the moment of the fault.",
+		Rule:        "12 scenarios (N concurrent single calls; one read call served by several short replies; concurrent and sequential ReadAt / WriteTo / WriteAt / ReadFrom mid-transfer; callers that keep issuing requests; raw dispatchRequest ledger) x fault kinds {server->client stream EOF at byte n, error at byte n (a transport error, and io.ErrClosedPipe), k-th client->server Write call fails with the connection reset, k-th Write fails one-sided, also on a transport whose Close leaves the reply stream open, k-th Write delivered but reported failed after the reply arrived}; quick: every reply-frame boundary +-1 and a seeded 12% of the interior offsets, thorough: every offset 0..T (streams longer than 2500 bytes: every offset of the first 1200 bytes and a seeded stride after) and every write index. A class is (scenario, fault kind, position bucket); non-trivial when calls were in flight at the moment of the fault.",
 		Assumptions: []string{"'bounded time' is decided as 'no stuck state' (every goroutine parked with nothing able to wake it), not as a latency bound", "the peer is scripted, so which replies were completely delivered before byte n is known exactly", "race detector on"},
-		Units:       func(tier vfTier, seed uint64) int { return 12 * 9 },
+		Units:       func(tier vfTier, seed uint64) int { return 12 * 10 },
 		Shards: func(tier vfTier) int {
 			// 13: coprime with the 12 scenarios, so that the eight units of one (slow) scenario do not all land in one child
 			return 13
@@ -314,6 +315,20 @@ func c04RunOnce(u *vfUnit, sc c04Scenario, fault *c04Fault, hookSeed uint64) c04
 			})
 		case "c2s-writefail":
 			ctl.FailWrite(vfC2S, int(fault.pos), errVfCut, onCut)
+		case "c2s-write-late-error":
+			// the k-th write reaches the peer completely; the transport reports it as failed only after the peer's
+			// reply has come in (bounded wait in logical steps: a reply may legitimately never come)
+			seen := ctl.Delivered(vfS2C)
+			ctl.LateFailWrite(vfC2S, int(fault.pos), errVfCut, func() {
+				for spin := 0; spin < 20000 && ctl.Delivered(vfS2C) == seen; spin++ {
+					runtime.Gosched()
+				}
+				for spin := 0; spin < 200; spin++ {
+					runtime.Gosched() // let the receiver hand the reply over
+				}
+				lost.Store(true)
+				fired.Store(true)
+			})
 		case "c2s-writefail-reader-survives":
 			// two independent one-way streams: the request stream fails, and closing the transport afterwards does
 			// not end the reply stream (the peer does not hang up either until the very end)
@@ -375,7 +390,7 @@ func c04RunOnce(u *vfUnit, sc c04Scenario, fault *c04Fault, hookSeed uint64) c04
 			peer.Stop()
 			return obs
 		}
-		if fault.kind != "c2s-writefail" && fault.kind != "c2s-writefail-ioEOF" && fault.kind != "c2s-writefail-reader-survives" {
+		if fault.kind != "c2s-writefail" && fault.kind != "c2s-writefail-ioEOF" && fault.kind != "c2s-writefail-reader-survives" && fault.kind != "c2s-write-late-error" {
 			// (with a one-sided write failure the read side of the transport is still alive:
 			// Wait legitimately blocks until Close)
 			wdone := vfGo(func() { c.Wait() })
@@ -418,7 +433,7 @@ func c04Run(u *vfUnit) {
 	r := u.Rng
 	scs := c04Scenarios()
 	sc := scs[u.Index%len(scs)]
-	kind := []string{"s2c-eof", "s2c-error", "c2s-reset", "c2s-writefail", "c2s-reset-ioEOF", "c2s-writefail-ioEOF", "s2c-eof-writer-survives", "s2c-closed-pipe", "c2s-writefail-reader-survives"}[(u.Index/len(scs))%9]
+	kind := []string{"s2c-eof", "s2c-error", "c2s-reset", "c2s-writefail", "c2s-reset-ioEOF", "c2s-writefail-ioEOF", "s2c-eof-writer-survives", "s2c-closed-pipe", "c2s-writefail-reader-survives", "c2s-write-late-error"}[(u.Index/len(scs))%10]
 	u.SetAdd("scenarios", sc.name)
 	dry := c04RunOnce(u, sc, nil, r.Uint64())
 	label0 := sc.name + "/no-fault"
